@@ -197,3 +197,5 @@ pub broadcast proof fn axiom_lower_idempotent(s: Seq<char>)
     ensures #[trigger] lower(lower(s)) == lower(s) {}
 pub assume_specification [http::Uri::path] (u: &http::Uri) -> (r: &str)
     ensures r@ == uri_path(*u);
+pub uninterp spec fn box_body_bytes(b: http_body_util::combinators::BoxBody<hyper::body::Bytes, hyper::Error>) -> Seq<u8>;   // all bytes the body yields
+pub uninterp spec fn into_bytes_view<T>(t: T) -> Seq<u8>;    // Into<Bytes>
